@@ -212,7 +212,8 @@ def run(c):
                         lines.append("chdir " + cd)
                         cwd = cd
                 elif kind < 0.12:
-                    p = r.choice(["/proc/self/cwd/", "/proc/thread-self/cwd/", "/proc/self/root" + root + "/", "/proc/self/fd/%d/" % 0]) + r.choice(["a", "f", "l0", "..", "b/../a"])
+                    p = r.choice(["/proc/self/cwd/", "/proc/thread-self/cwd/", "/proc/self/root" + root + "/", "/proc/thread-self/root" + root + "/", "/proc/self/root" + root + "/",
+                                  "/proc/self/fd/%d/" % 0]) + r.choice(["a", "f", "l0", "..", "b/../a", "l1/../c", "c/l2"])
                 else:
                     pre, parts, start = gen_path(r, root, dirs, entries, cd)
                     p = "/".join(parts)
@@ -280,10 +281,13 @@ def run(c):
         if o.get("status") != 1:
             raise RuntimeError("traced program did not finish normally: status %s exit %s %s" % (o.get("status"), o.get("exit"), o.get("error")))
         truth = {}
+        tracee_pid = None
         for ln in o["out"].splitlines():
             w = ln.split(" ")
             if w[0] == "t":
                 truth[w[1]] = (w[2], w[3])
+            elif w[0] == "pid":
+                tracee_pid = w[1]
         chks = []
         for op in ops:
             calls = o["calls"].get(op["id"])
@@ -327,6 +331,8 @@ def run(c):
                         follow = False
                 want = tf if follow else tn
                 isproc = ck["path"].startswith("/proc/")
+                # aliases through the root link are inside the model (the /proc entries of the tracee are part of the forest)
+                rootalias = ck["path"].startswith("/proc/self/root/") or ck["path"].startswith("/proc/thread-self/root/")
                 if klass == "syscall":
                     blocked = True
                     if not (shown == "procfs-path" and (isproc or "/proc/" in (tf + tn))):
@@ -347,11 +353,13 @@ def run(c):
                                                    dict(rep, pathname=ck["path"], base=ck["base"], presented=shown, kernel=want, follow=follow),
                                                    klass="path:" + ("proc" if isproc else "plain"))
                 # Coq: model vs code vs kernel, outside /proc
-                if not isproc and ck["base"] is not None and "/proc" not in shown:
+                if (not isproc or rootalias) and ck["base"] is not None and "/proc" not in shown:
                     ia, pc = comps(ck["path"], names)
                     tcode = lambda t: "TSkip" if t in ("!dangling", "!missing", "!readlink") or "/proc" in t else ("TErr" if t.startswith("!") else "TPath " + canon(t, names))
                     chks.append("(%s, %s, %s, %s, %s, %s)" % (canon(ck["base"], names), "true" if ia else "false", pc, canon(shown, names), tcode(tf), tcode(tn)))
                     forest_src.append((x["id"], op, ci))
+                    if rootalias:
+                        c.cov["proc_root_aliases_compared_in_coq"] = c.cov.get("proc_root_aliases_compared_in_coq", 0) + 1
             if not blocked and all(k != "syscall" for k, _ in calls):
                 class_items.append("(%d, %s, %s)" % (sc_index[op["name"]], "None" if (isinstance(cls, str) or not op["readable"]) else "Some %d%%N" % op["flags"],
                                                      coq_list(["%d%%N" % {"read": 0, "write": 1, "stat": 2}[k] for k, _ in calls])))
@@ -376,7 +384,17 @@ def run(c):
             else:
                 ia, pc = comps(v[1], names)
                 ents.append("(%s, Link %s %s)" % (canon(k, names), "true" if ia else "false", pc))
-        forests_coq.append((coq_list(ents), chks))
+        # the tracee's /proc entries: self and thread-self (whose targets depend on the reader), and the root links
+        pr, pd = "/proc", "/proc/" + str(tracee_pid)
+        for d in (pr, pd, pd + "/task", pd + "/task/" + str(tracee_pid)):
+            ents.append("(%s, Dir)" % canon(d, names))
+        ents.append("(%s, Link false %s)" % (canon(pr + "/self", names), comps(str(tracee_pid), names)[1]))
+        ents.append("(%s, Link false %s)" % (canon(pr + "/thread-self", names), comps("%s/task/%s" % (tracee_pid, tracee_pid), names)[1]))
+        ents.append("(%s, Link true [])" % canon(pd + "/root", names))
+        ents.append("(%s, Link true [])" % canon(pd + "/task/" + str(tracee_pid) + "/root", names))
+        special = coq_list(["(%s, %s)" % (canon(pr + "/self", names), canon(pd, names)),
+                            "(%s, %s)" % (canon(pr + "/thread-self", names), canon(pd + "/task/" + str(tracee_pid), names))])
+        forests_coq.append((coq_list(ents), special, chks))
     c.sample({"forest": metas[0][0], "ops": [{"syscall": op["name"], "registers": op["args"], "asked": obs[0]["calls"].get(op["id"])} for op in metas[0][3][:6]],
               "kernel": obs[0]["out"].splitlines()[:8]})
     # ---- Coq
@@ -389,7 +407,7 @@ def run(c):
             k, coq_list(class_items[k:k + CH]), k, k, k)
     base_idx = []
     off = 0
-    for i, (ents, chks) in enumerate(forests_coq):
+    for i, (ents, special, chks) in enumerate(forests_coq):
         base_idx.append(off)
         off += len(chks)
     out = c.coq_eval("tables", body, timeout=1500)
@@ -399,9 +417,9 @@ def run(c):
     def shard(k):
         b = HDR
         for i in range(k, min(k + 10, len(forests_coq))):
-            ents, chks = forests_coq[i]
-            b += "Definition f%d : list (list nat * node) * list chk := (%s, %s).\nDefinition M%d := Eval vm_compute in forest_failing f%d.\nPrint M%d.\n" % (
-                i, ents, coq_list(chks), i, i, i)
+            ents, special, chks = forests_coq[i]
+            b += ("Definition f%d : list (list nat * node) * list (list nat * list nat) * list chk := (%s, %s, %s).\n"
+                  "Definition M%d := Eval vm_compute in forest_failing f%d.\nPrint M%d.\n") % (i, ents, special, coq_list(chks), i, i, i)
         return c.coq_eval("forests%d" % k, b, timeout=1500)
     with concurrent.futures.ThreadPoolExecutor(max_workers=8) as ex:
         outs = list(ex.map(shard, range(0, len(forests_coq), 10)))
